@@ -129,12 +129,34 @@ def r3(ctx: Ctx) -> None:
     ctx.check(ok, 'C20.R3', cm, 'guard', 'the migration call is under `should_migrate` (and only for CSV rules)', f'migration is called under {sorted(g)}', c)
     # every definition of should_migrate: the migrate parameter, or the interactive answer == 'y', or False
     defs = [s for s in fl.cfg.stmts() if isinstance(s, ast.Assign) and src(s.targets[0]) == 'should_migrate']
+    def consent(e, at, depth=0):
+        """(is an accepted source of consent, the statement that reads the prompt answer or None).  Accepted: the `migrate` parameter, False,
+        `<answer> == 'y'` where the answer comes from input(), or a local every definition of which is accepted."""
+        if isinstance(e, ast.Constant) and e.value is False:
+            return True, None
+        if isinstance(e, ast.Name) and e.id == 'migrate' and 'param' in fl.cfg.defs_reaching(at, 'migrate'):
+            return True, None
+        if isinstance(e, ast.Compare) and len(e.ops) == 1 and isinstance(e.ops[0], ast.Eq) and isinstance(e.comparators[0], ast.Constant) and e.comparators[0].value in ('y', 'yes'):
+            return ('call:input' in fl.atoms(e.left, at)), at
+        if isinstance(e, ast.Name) and depth < 3:
+            ds = [d for d in fl.cfg.defs_reaching(at, e.id) if d != 'param']
+            if not ds:
+                return False, None
+            prompt_at = None
+            for d in ds:
+                v_ = getattr(fl.cfg.stmt[d], 'value', None)
+                ok_, p_ = consent(v_, fl.cfg.stmt[d], depth + 1) if v_ is not None else (False, None)
+                if not ok_:
+                    return False, None
+                prompt_at = prompt_at or p_
+            return True, prompt_at
+        return False, None
     for s in defs:
         v = src(s.value).replace(' ', '')
-        ok = v in ('migrate', "(response=='y')", "response=='y'", 'False')
+        ok, prompt_at = consent(s.value, s)
         ctx.check(ok, 'C20.R3', cm, f'def:{v[:20]}', f'should_migrate = {src(s.value)}', f'should_migrate = {src(s.value)!r}: migration no longer requires --migrate or an explicit "y"', s)
-        if 'response' in v:
-            gi = fl.cfg.guard_literals(s)
+        if prompt_at is not None:
+            gi = fl.cfg.guard_literals(prompt_at)
             ctx.check(('is_interactive', True) in gi, 'C20.R3', cm, 'interactive-only', 'the prompt is only shown on an interactive terminal', 'the prompt answer is used outside interactive mode', s)
     ii = [s for s in fl.cfg.stmts() if isinstance(s, ast.Assign) and src(s.targets[0]) == 'is_interactive']
     ok = bool(ii) and 'sys.stdout.isatty()' in src(ii[0].value) and 'not migrate' in src(ii[0].value)
@@ -170,7 +192,7 @@ def r4(ctx: Ctx) -> None:
         ok = any(t.replace(' ', '') == f'notos.path.exists({p})' and tr for t, tr in g) or any(t.replace(' ', '') == f'os.path.exists({p})' and not tr for t, tr in g)
         ctx.check(ok and e.kind == 'write', 'C20.R4', ic, f'create:{p}', f'{p} is written only if it does not exist',
                   f'{e.label} is not guarded by `not os.path.exists({p})`: `tally init` in an existing budget overwrites the user\'s file', e.node)
-    ctx.need(n >= 4, f'C20.R4: only {n} file creations found in init_config')
+    ctx.need(n >= 2, f'C20.R4: only {n} file creations found in init_config')
     ci = proj.func('commands.init.cmd_init')
     cfl = get_flow(proj, ci)
     for e in effects_in(ci):
@@ -180,7 +202,9 @@ def r4(ctx: Ctx) -> None:
     mc = cfl.calls('_migrate_csv_to_rules')
     for c in mc:
         g = cfl.cfg.guard_literals(cfl.stmt_of(c))
-        ok = ('os.path.exists(old_csv)', True) in g and ('os.path.exists(new_rules)', False) in g and ('has_rules', True) in g
+        # the third condition "the CSV really contains rules" may be a flag or a call that looks into the CSV
+        has_rules = ('has_rules', True) in g or any(tr and t.endswith('(old_csv)') and not t.startswith('os.path.') for t, tr in g)
+        ok = ('os.path.exists(old_csv)', True) in g and ('os.path.exists(new_rules)', False) in g and has_rules
         ctx.check(ok, 'C20.R4', ci, 'init-migration', 'init migrates only when the CSV exists (with rules) and merchants.rules does not', f'init migration under {sorted(g)}', c)
         kw = {k: src(v) for k, v in bound_args(proj, ci, c).items()}
         ctx.check(kw.get('backup') == 'True', 'C20.R4', ci, 'init-migration-backup', 'with backup=True', f'init migration called with {kw}', c)
